@@ -69,13 +69,15 @@ TrIntoProof ==
     /\ IsEv("IntoProof")
     /\ LET e == E
            dok == DrawOK(e, 1, "PrivateKey", 32) /\ Len(e.draws) = 1
-       IN IF dok
-          THEN /\ IntoProof(e.o, e.o2, e.draws[1].used)
+           di  == DrawIdx(e, "PrivateKey", 32)
+       IN IF di > 0
+          THEN /\ IntoProof(e.o, e.o2, e.draws[di].used)
                /\ DoneK(<< TotalTag(e), KindTag(e),
+                          <<"C15.draw.PrivateKey", dok>>,
                           <<"C03.B", e.res.kind = "ok" => (out'.kind = "ok" /\ e.res.B = out'.B)>>,
                           <<"C04.ownB", (e.res.kind = "ok") = (out'.kind = "ok")>>,
                           <<"C01.roundTrip", e.res.kind = "ok" => (out'.kind = "ok" /\ e.res.salt = out'.salt)>> >>,
-                       {"IntoProof"} \cup (IF e.draws[1].raw # e.draws[1].used THEN {"IntoProof.injected"} ELSE {}),
+                       {"IntoProof"} \cup (IF e.draws[di].raw # e.draws[di].used THEN {"IntoProof.injected"} ELSE {}),
                   e.res.kind # out'.kind)
           ELSE /\ UNCHANGED <<obj, out>>
                /\ DoneK(<< <<"C15.draw.PrivateKey", FALSE>> >>, {"IntoProof"}, TRUE)
@@ -117,9 +119,11 @@ TrClientNew ==
     /\ IsEv("ClientNew")
     /\ LET e == E
            dok == DrawOK(e, 1, "PrivateKey", 32) /\ Len(e.draws) = 1
-       IN IF dok
-          THEN /\ ClientNew(e.o, e.user, e.pass, e.g, e.N, e.B, e.salt, e.draws[1].used)
+           di  == DrawIdx(e, "PrivateKey", 32)
+       IN IF di > 0
+          THEN /\ ClientNew(e.o, e.user, e.pass, e.g, e.N, e.B, e.salt, e.draws[di].used)
                /\ DoneK(<< TotalTag(e), KindTag(e),
+                          <<"C15.draw.PrivateKey", dok>>,
                           <<"C03.A", e.res.kind = "ok" => (out'.kind = "ok" /\ e.res.A = out'.A)>>,
                           <<"C03.M1", e.res.kind = "ok" => (out'.kind = "ok" /\ e.res.M1 = out'.M1)>>,
                           <<"C04.ownA", (e.res.kind = "ok") = (out'.kind = "ok")>> >>,
